@@ -348,8 +348,8 @@ func (x *Exec) appendOp(fr *Frame, st *State, c *ssa.CallCommon, args []Value) V
 	for _, cp := range cs {
 		name := elemPrefix(et) + cp.suffix
 		arr := x.heapArr(st, name, SInt, ArraySort(SBV64, cp.sort))
-		srcA := Select(arr, s.Base)
-		srcB := Select(arr, add.Base)
+		srcA := x.heapSelect(st, name, arr, s.Base)
+		srcB := x.heapSelect(st, name, arr, add.Base)
 		na := x.freshSym("appended", ArraySort(SBV64, cp.sort))
 		// pointwise definition: forall i. i < len(s) => na[i] = A[off+i] ; len(s) <= i < newLen => na[i] = B[boff + i - len(s)]
 		q := x.freshBound("i", SBV64)
@@ -371,7 +371,7 @@ func (x *Exec) appendOp(fr *Frame, st *State, c *ssa.CallCommon, args []Value) V
 		} else {
 			st.Assume(&Term{S: fmt.Sprintf("(forall ((%s (_ BitVec 64))) %s)", q.S, body.S), Sort: SBool})
 		}
-		st.heap[name] = x.nameTerm(st, Store(arr, base, na), "h")
+		x.heapStoreFwd(st, name, base, na)
 	}
 	if b, ok := et.Underlying().(*types.Basic); ok && b.Kind() == types.Uint8 {
 		// sequence view: seq(r) = cat(seq(s), seq(add))
@@ -393,6 +393,10 @@ func (x *Exec) seqOfPre(st *State, s *SliceV) *Term {
 func (x *Exec) seqCat(st *State, a, b *Term) *Term {
 	r := x.D.Fun("seqcat", SSeq, a, b)
 	st.Assume(Eq(x.seqLen(r), BVBin("bvadd", x.seqLen(a), x.seqLen(b))))
+	// the empty sequence is the identity of concatenation (instances for these operands)
+	z := BVConstU(0, 64)
+	st.Assume(Implies(Eq(x.seqLen(a), z), Eq(r, b)))
+	st.Assume(Implies(Eq(x.seqLen(b), z), Eq(r, a)))
 	x.needSeqAxioms = true
 	return r
 }
@@ -415,8 +419,8 @@ func (x *Exec) copyOp(fr *Frame, st *State, c *ssa.CallCommon, args []Value) Val
 	for _, cp := range cs {
 		name := elemPrefix(et) + cp.suffix
 		arr := x.heapArr(st, name, SInt, ArraySort(SBV64, cp.sort))
-		old := Select(arr, dst.Base)
-		srcA := Select(arr, src.Base)
+		old := x.heapSelect(st, name, arr, dst.Base)
+		srcA := x.heapSelect(st, name, arr, src.Base)
 		na := x.freshSym("copied", ArraySort(SBV64, cp.sort))
 		q := x.freshBound("i", SBV64)
 		inRange := And(BVCmp("bvuge", q, dst.Off), BVCmp("bvult", q, BVBin("bvadd", dst.Off, n)))
@@ -425,7 +429,7 @@ func (x *Exec) copyOp(fr *Frame, st *State, c *ssa.CallCommon, args []Value) Val
 			Implies(Not(inRange), Eq(Select(na, q), Select(old, q))),
 		)
 		st.Assume(&Term{S: fmt.Sprintf("(forall ((%s (_ BitVec 64))) %s)", q.S, body.S), Sort: SBool})
-		st.heap[name] = x.nameTerm(st, Store(arr, dst.Base, na), "h")
+		x.heapStoreFwd(st, name, dst.Base, na)
 	}
 	if b, ok := et.Underlying().(*types.Basic); ok && b.Kind() == types.Uint8 {
 		// when the whole destination is overwritten by the whole source the sequences coincide
